@@ -21,6 +21,8 @@ ROWS = ["c1_t0", "c1_t1ns", "c1_t300ms", "c1_t2500ms", "c7_t1ns", "c7_t100ms", "
 HARNESSES = [
     KH("O19.1a", "c19_o1_step_invariants", "TokenBucket::try_consume one step from an arbitrary valid state: invariant, time consumed once, refusal semantics",
        functions=F, bounds="capacity in [1,1e6], tokens any f64 in [0,cap], elapsed any (s,ns) <= 1e4 s; unwind 4 (Timespec recursion)", replay="solver-only"),
+    KH("O19.1d", "c19_o1_new_bucket", "TokenBucket::new: tokens == refill rate == capacity == max_qps, reference instant = now",
+       functions=[("rate_limiter.rs", "new")], bounds="every max_qps in u32; creation instant any (s,ns) <= 1e4 s", replay="solver-only"),
     KH("O19.1c", "c19_o1_refund_one", "TokenBucket::refund_one: at most one token back, never above capacity",
        functions=F, bounds="capacity in [1,1e6], tokens any f64 in [0,cap]"),
 ] + [
